@@ -1520,6 +1520,10 @@ class set_operation:
 def difference(set_type, o1, o2):
     if o1 is None or o2 is None:
         return o1
+    if not hasattr(o1, '_set_type'):
+        # The result is of the first operand's kind, so that one has to be
+        # one of our containers (the C implementation says TypeError too).
+        raise TypeError("set operation: invalid argument, cannot iterate")
     i1 = _SetIteration(o1, True, 0)
     i2 = _SetIteration(o2, False, 0, True)
     if i1.useValues:
